@@ -58,6 +58,11 @@ class MultiFit(FitBase):
             minimizer_kwargs=minimizer_kwargs,
             dynamic_error_algorithm=dynamic_error_algorithm,
         )
+        # parameters that were limited or fixed in the member fits stay limited or fixed
+        for _par_name, _par_limits in self._member_limited_parameters.items():
+            self.limit_parameter(_par_name, _par_limits[0], _par_limits[1])
+        for _par_name, _par_value in self._member_fixed_parameters.items():
+            self.fix_parameter(_par_name, _par_value)
 
     # -- private methods
 
@@ -140,8 +145,16 @@ class MultiFit(FitBase):
         )
 
         _log_det_names = []
+        self._member_fixed_parameters = OrderedDict()
+        self._member_limited_parameters = OrderedDict()
         for _i, _fit_i in enumerate(self._fits):
+            # the fitters are rebuilt for the common parameter nodes: remember fixed and limited parameters
+            self._member_fixed_parameters.update(_fit_i._fitter.fixed_parameters)
+            _limited_parameters_i = _fit_i._fitter.limited_parameters
+            self._member_limited_parameters.update(_limited_parameters_i)
             _fit_i._initialize_fitter()
+            for _par_name, _par_limits in _limited_parameters_i.items():
+                _fit_i._fitter.limit_parameter(_par_name, _par_limits)
 
             _x_data_node = _fit_i._nexus.get("x_data")
             if _x_data_node is not None:
